@@ -10,7 +10,7 @@ for f in "$HERE"/selftest/patches/unfix/*.diff; do
   python3 "$HERE/tools/eval_mutant.py" "$d" --checks all > "$OUT/unfix/$b.json" 2>&1
   echo "unfix/$b done"
 done
-for d in "$HERE"/seeded/C* "$HERE"/seeded/R2-C*; do
+for d in "$HERE"/seeded/C* "$HERE"/seeded/R2-C* "$HERE"/seeded/R3-C*; do
   [ -d "$d" ] || continue
   b=$(basename "$d")
   python3 "$HERE/tools/eval_mutant.py" "$d" --checks all > "$OUT/seeded/$b.json" 2>&1
